@@ -83,6 +83,29 @@ CHECKS["C18"] = dict(
          "their RTCP fields. The upper bound of dlsr and numeric equality over histories are not decided.",
     ref="DESIGN.md section 3 C18")
 
+CHECKS["C01"] = dict(
+    technique="must-event guard (dominance) analysis of the duplicate filter; finite-domain evaluation of the PPID mapping and of _send's fragmentation; def-use provenance; reset table-clearing rule",
+    text="Decides structural necessary conditions of exactly-once / intact / right-channel delivery: reassembly is dominated by the 'new TSN' edge of "
+         "_mark_received, which tests both the cumulative TSN and the misordered set; the str/bytes/empty mapping through the payload protocol identifiers is "
+         "invertible; _send assigns consecutive TSNs modulo 2^32, B/E/U flags and one stream sequence number per message and its fragments tile the message for "
+         "sizes around the fragment boundary; the stream id used for delivery is the chunk's; stream resets clear the per-stream tables. It does not decide "
+         "reassembly or ordering under loss/reordering schedules.",
+    ref="DESIGN.md section 3 C01")
+CHECKS["C04"] = dict(
+    technique="structural ordering of start(); must-event guards evaluated over the five transport states; finite-domain evaluation of the fingerprint policy and of the SRTP key slicing",
+    text="Decides: start() performs handshake, identity check and SRTP setup, each followed by the FAILED check, before CONNECTED and the data pump; every "
+         "hand-over of decrypted bytes is guarded by a condition that holds only in CONNECTED (or by the SRTP session only start() can create); sends check "
+         "CONNECTED; the fingerprint policy equals 'at least one supported, all supported match, case-insensitive' on 900 enumerated lists; both roles derive "
+         "the RFC 5764 mirror-image key/salt slices for the three profiles; SRTP failures deliver nothing. It does not decide what OpenSSL/libsrtp do.",
+    ref="DESIGN.md section 3 C04")
+CHECKS["C08"] = dict(
+    technique="reader/writer struct-format and field-order extraction; finite-domain evaluation of parameter and padding arithmetic over all length residues; must-event guard on the checksum gate; registry constants",
+    text="Decides: every chunk / RE-CONFIG parameter class reads the formats and field order it writes; encode/decode_params agree for all lists of up to three "
+         "parameters with value lengths 0..4; padding and length fields are right for all residues and two bundled chunks parse back; every chunk class is "
+         "registered with a distinct type; no chunk is constructed unless the checksum comparison held. It does not decide the burst-detection power of CRC32c "
+         "nor equality for all field values.",
+    ref="DESIGN.md section 3 C08")
+
 NOT_APPLICABLE = {
     "C06": "every clause quantifies over loss schedules, timers and the interleaving of several channels' fragments across heap queues; no "
            "clause has a structural necessary condition that is not merely a description of one implementation (DESIGN.md section 5). Its "
